@@ -40,7 +40,7 @@ def _cls(k: int, total: int | None = None) -> str:
 
 def gen_cases(tier: str, seed: int):
     r = random.Random(f"{seed}:C04")
-    ncases = 600 if tier == "quick" else 8000
+    ncases = 1500 if tier == "quick" else 12000
     for _ in range(ncases):
         t_rows = [models.gen_row(r) for _ in range(r.choice([0, 0, 1, 2, 3, 5, 8, 12]))]
         if t_rows and r.random() < 0.5:  # duplicates
